@@ -463,6 +463,33 @@ def ob_peer_uses_layer(report):
                 return viol(ob, [ex], 'Peer::call does not wrap the RPC in the network\'s outbound request layer', 'peer-layer', path_summary(r), len(res))
             if len(cl) != 1 or vname(cl[0].args[0]).find(vname(ly[0].ret)) < 0 and not derives_from(ex.deref(r.path, cl[0].args[0]), lambda v: isinstance(v, Sym) and v.name == vname(ly[0].ret)):
                 return viol(ob, [ex], 'Peer::call does not send the request through the layered service', 'peer-layer-call', path_summary(r), len(res))
+            # what the caller gets is the layered service's own outcome, untouched
+            fut = cl[0].ret
+            rv = r.ret
+            if vname(rv) != vname(fut):
+                clo = [None]
+
+                def grab(v):
+                    if clo[0] is None and isinstance(v, Sym) and v.get_ov('head') is not None and ex.closure_fn(v) is not None:
+                        clo[0] = v
+                    return False
+                derives_from(rv, grab, ex=ex, p=r.path)
+                if clo[0] is None:
+                    return viol(ob, [ex], f'Peer::call returns {vrepr(rv)[:80]}, not the future of the layered service', 'peer-layer-result', path_summary(r), len(res))
+                body_fn = ex.closure_fn(clo[0])
+                q = Path()
+                q.mem = dict(r.path.mem)
+                cell = ('H', 'wrap.cell', '')
+                q.mem[cell] = clo[0]
+                ex.explore_pending = False
+                outs = ex.run(body_fn, [Ptr(cell, (), True), Sym('cx', 'Context')], q)
+                for o_ in outs:
+                    if o_.tag != 'return' or not (isinstance(o_.ret, Agg) and o_.ret.variant == 'Ready'):
+                        continue
+                    val = o_.ret.fields[0]
+                    if not re.fullmatch(r'poll\(' + re.escape(vname(fut)) + r'\)#\d+', vname(val)):
+                        return viol(ob, [ex], f'Peer::call post-processes the outcome of the RPC ({vrepr(val)[:100]}): the caller can be handed a response or an error that neither the remote '
+                                    'handler nor the layered service produced (e.g. a local timeout turned into a successful response)', 'peer-layer-result', path_summary(o_), len(res) + len(outs))
             n += 1
         if not n:
             return ob.done([ex], 'inconclusive', 'no path', paths=len(res))
